@@ -10,6 +10,8 @@ import (
 // ---------------------------------------------------------------------------------------------
 
 const idxSort = "(Array Int Int)"
+const genIdxSort = "(Array Fn (Array Int Int))"
+const zeroIdx = "((as const (Array Int Int)) 0)"
 
 func init() {
 	// abstract tensor shape and elements (interface level, section 3.4 of DESIGN.md)
@@ -107,6 +109,8 @@ func init() {
 	registerDomain("drawnN", []string{"T", "Real", "Real"}, "Bool", "")
 	// element generators (DESIGN.md 3.3): genAt(f, J) is the element the generator f yields at abstract index J, over the
 	// enumeration shape genShape(f) of rank genRank(f)
+	// mix(P, J, k, n): the index that agrees with J on the coordinates k..n-1 and with P elsewhere
+	registerDomain("mix", []string{idxSort, idxSort, "Int", "Int"}, idxSort, `(assert (forall ((P (Array Int Int)) (J (Array Int Int)) (k Int) (n Int) (j Int)) (! (= (select (mix P J k n) j) (ite (and (<= k j) (< j n)) (select J j) (select P j))) :pattern ((select (mix P J k n) j)))))`)
 	registerDomain("genAt", []string{"Fn", idxSort}, "Data", "")
 	registerDomain("genRank", []string{"Fn"}, "Int", "")
 	registerDomain("genShape", []string{"Fn"}, idxSort, "")
